@@ -63,7 +63,7 @@ func WithCustomHashFunction(hasher func() hash.Hash32) HashPartitionerOption {
 // WithCustomFallbackPartitioner lets you specify what HashPartitioner should be used in case a Distribution Key is empty
 func WithCustomFallbackPartitioner(randomHP *hashPartitioner) HashPartitionerOption {
 	return func(hp *hashPartitioner) {
-		hp.random = hp
+		hp.random = randomHP
 	}
 }
 
